@@ -78,6 +78,10 @@ func TestC19(t *testing.T) {
 	// has to follow
 	s3over := corpusS3(nodes, "1", "auto", 2, &w.Alpha{Kubectl: []string{"canary-pause", "canary-unpause"}, SpecEdits: []string{"canary-replicas=3"}})
 	s3over.name = "S3-canary-replicas-raised-beyond-the-nodes"
+	// a canary that asks for more nodes than exist from its very start: status.canary is recorded with an empty node list
+	// (and a shortage reported at every reconcile); it still is an active canary for every command
+	s3none := corpusS3(nodes, "3", "auto", 1, &w.Alpha{Kubectl: []string{"freeze-rollout", "pause-rolling-update", "canary-pause", "canary-fail"}})
+	s3none.name = "S3-canary-without-any-node"
 	type st struct {
 		sc *w.Scenario
 		s  *w.State
@@ -86,7 +90,7 @@ func TestC19(t *testing.T) {
 	perSc := map[string]int{} // closure starts kept per scenario (a single cap would be used up by the first scenario)
 	seenSc := map[string]int{}
 	k := 0
-	runWorld(t, run, []scOpt{s2, s3, s3m, s3again, s3back, s3over}, []func(*w.MonCtx){w.MonC19, w.MonC14Status, w.MonC19Effects}, 0, func(sc *w.Scenario, s *w.State, d int) {
+	runWorld(t, run, []scOpt{s2, s3, s3m, s3again, s3back, s3over, s3none}, []func(*w.MonCtx){w.MonC19, w.MonC14Status, w.MonC19Effects}, 0, func(sc *w.Scenario, s *w.State, d int) {
 		if s.Mem["lastcmd"] != "" {
 			k++
 			seenSc[sc.Name]++
